@@ -8,6 +8,8 @@ import (
 	"errors"
 	"fmt"
 	"math/rand"
+	"net/http"
+	"strconv"
 	"sync"
 
 	"github.com/nautilus/graphql"
@@ -297,6 +299,9 @@ type Call struct {
 	Invalid  string                 `json:"invalid,omitempty"`
 	CtxValue interface{}            `json:"ctx,omitempty"`
 	Seq      int                    `json:"seq"`
+	ViaMW    bool                   `json:"via_with_middlewares,omitempty"`
+	ReqMWs   []int                  `json:"request_middlewares,omitempty"`
+	Fault    string                 `json:"fault,omitempty"`
 }
 
 // Fault kinds a controller can assign to a call
@@ -330,8 +335,37 @@ type Service struct {
 	Ctl    *Controller
 }
 
+// svcMW is what WithMiddlewares returns: the same service, remembering the request middlewares
+type svcMW struct {
+	*Service
+	mws []graphql.NetworkMiddleware
+}
+
+// WithMiddlewares makes every Service a graphql.QueryerWithMiddlewares
+func (s *Service) WithMiddlewares(mws []graphql.NetworkMiddleware) graphql.Queryer {
+	return &svcMW{Service: s, mws: mws}
+}
+
+func (s *svcMW) Query(ctx context.Context, in *graphql.QueryInput, recv interface{}) error {
+	// apply the middlewares to a request of our own and read back which ones ran, in order
+	req, _ := http.NewRequest(http.MethodPost, "http://"+s.Name, nil)
+	for _, m := range s.mws {
+		_ = m(req)
+	}
+	ids := []int{}
+	for _, v := range req.Header.Values("X-Mw") {
+		n, _ := strconv.Atoi(v)
+		ids = append(ids, n)
+	}
+	return s.Service.query(ctx, in, recv, true, ids)
+}
+
 func (s *Service) Query(ctx context.Context, in *graphql.QueryInput, recv interface{}) error {
-	c := Call{Service: s.Name, Query: in.Query, Vars: in.Variables, OpName: in.OperationName, CtxValue: ctx.Value(ctxKey{})}
+	return s.query(ctx, in, recv, false, nil)
+}
+
+func (s *Service) query(ctx context.Context, in *graphql.QueryInput, recv interface{}, viaMW bool, mwIDs []int) error {
+	c := Call{Service: s.Name, Query: in.Query, Vars: in.Variables, OpName: in.OperationName, CtxValue: ctx.Value(ctxKey{}), ViaMW: viaMW, ReqMWs: mwIDs}
 	doc, errs := gqlparser.LoadQuery(s.Schema, in.Query)
 	if errs != nil {
 		c.Invalid = errs.Error()
@@ -339,14 +373,15 @@ func (s *Service) Query(ctx context.Context, in *graphql.QueryInput, recv interf
 	ctl := s.Ctl
 	ctl.mu.Lock()
 	c.Seq = len(ctl.Calls)
+	fault := FaultNone
+	if ctl.Fault != nil {
+		fault = ctl.Fault(&c)
+	}
+	c.Fault = fault
 	ctl.Calls = append(ctl.Calls, c)
 	ctl.Outstanding++
 	if ctl.Outstanding > ctl.MaxOut {
 		ctl.MaxOut = ctl.Outstanding
-	}
-	fault := FaultNone
-	if ctl.Fault != nil {
-		fault = ctl.Fault(&c)
 	}
 	gate := ctl.Gate
 	ctl.mu.Unlock()
